@@ -51,7 +51,13 @@ def int_expr(n, env):
         v = int_expr(n.operand, env)
         return [f"(-{x})" for x in v] if isinstance(v, list) else f"(-{v})"
     if isinstance(n, ast.BinOp) and type(n.op) in (ast.Add, ast.Sub, ast.Mult, ast.FloorDiv):
-        a, b = int_expr(n.left, env), int_expr(n.right, env)
+        l, r = n.left, n.right
+        # integer + and * commute: one spelling (`x + 1`, `2 * x`)
+        if isinstance(n.op, ast.Add) and isinstance(l, ast.Constant) and not isinstance(r, ast.Constant):
+            l, r = r, l
+        if isinstance(n.op, ast.Mult) and isinstance(r, ast.Constant) and not isinstance(l, ast.Constant):
+            l, r = r, l
+        a, b = int_expr(l, env), int_expr(r, env)
 
         def one(x, y):
             if isinstance(n.op, ast.FloorDiv):
